@@ -184,8 +184,32 @@ class C06(core.Check):
                 d = zckref.make_file(pieces, comp_type=0, dict_bytes=r.randbytes(r.choice([0, 13])), hash_type=ht, chunk_hash_type=r.randrange(4),
                                      opt_elems=oe, detached=det)
                 samples.append({"name": "ref-h%d-det%d-opt%d" % (ht, det, oe is not None), "data": d})
+        # stored checksums containing 0x00 bytes (first byte / middle byte): comparisons that stop at a NUL would leave the rest unprotected
+        for ht in range(4):
+            for zpos in (0, zckref.DIGEST_SIZE[ht] // 2):
+                pieces = [r.randbytes(r.randrange(1, 60)) for _ in range(3)]
+                for i in range(200000):
+                    d = zckref.make_file(pieces, comp_type=0, hash_type=ht, chunk_hash_type=1, opt_elems=[(7, i.to_bytes(4, "big"))])
+                    p = zckref.parse(d)
+                    if p.header_digest[zpos] == 0:
+                        samples.append({"name": "ref-h%d-nul@%d" % (ht, zpos), "data": d})
+                        self.count("samples_with_nul_in_checksum", 1)
+                        break
+                if self.quick:
+                    break
         out = []
         self.exhaustive = True
+        # one header larger than 1 MiB (piece-wise hashing of large headers): sampled windows only, not part of the exhaustive claim
+        nbig = 62000
+        big = zckref.make_file([b"%c" % (i & 0xff) for i in range(nbig)], comp_type=0, hash_type=1, chunk_hash_type=3)
+        pb = zckref.parse(big)
+        self.count("big_header_bytes", pb.header_len)
+        wins = [(pb.header_len - 3, pb.header_len), (pb.lead_len + (1 << 20) + 1000, pb.lead_len + (1 << 20) + 1002)]
+        if not self.quick:
+            wins += [(pb.lead_len + k * 200000, pb.lead_len + k * 200000 + 2) for k in range(1, 5)]
+        for lo, hi in wins:
+            out.append({"base": "ref-bigheader", "data": core.b64(big), "bin": ctx["bin"], "lines": [["X", lo, hi]], "lines_id": "X%d" % lo})
+        out.append({"base": "ref-bigheader", "data": core.b64(big), "bin": ctx["bin"], "lines": [["P", "p0", [], "control"]], "lines_id": "P"})
         for s in samples:
             data = s["data"]
             p = zckref.parse(data)
